@@ -282,6 +282,40 @@ def build():
         "filter_args": lambda interp: _Fn(lambda i, a, k: PyDict({"x": Opaque("userarg", None)})),
         "_FUNCTION_HASHES": lambda interp: Opaque("fhashes", None),
     }
+    # C11: _FUNCTION_HASHES is ONE table for the whole process - every cached function of every Memory, every thread.  Rely condition for a
+    # thread that does not hold a lock guarding the table: between two of its accesses other threads may insert (first call of another
+    # function), remove (the same-identifier sweep of _write_func_code, garbage collection) and clear (Memory.clear of ANY Memory) entries.
+    #   - a membership test says nothing about the next subscript: table[f] may raise KeyError
+    #   - iterating (WeakKeyDictionary.items() is a Python-level generator over the underlying dict) while another thread inserts or clears
+    #     raises RuntimeError('dictionary changed size during iteration'): iteration, insertion and clear must share a lock
+    # Single calls (table.get(f), table.pop(f, None)) are atomic.  Module-level locks of memory.py are found by their constructor.
+    import ast as _ast_l
+    from pyvc.contracts import SourceModule as _SM
+    for st in _SM.get(MEM).tree.body:
+        if isinstance(st, _ast_l.Assign) and isinstance(st.value, _ast_l.Call) and _ast_l.unparse(st.value.func) in ("threading.Lock", "threading.RLock", "Lock", "RLock"):
+            for t in st.targets:
+                if isinstance(t, _ast_l.Name):
+                    glob[t.id] = lambda interp: Opaque("tablelock", None)
+
+    def tl_enter(interp, cm):
+        d = interp.ctx.lock_depth
+        d["tablelock"] = d.get("tablelock", 0) + 1
+        return cm
+
+    def tl_exit(interp, cm, e):
+        interp.ctx.lock_depth["tablelock"] -= 1
+        return False
+
+    p.models["enter:tablelock"] = tl_enter
+    p.models["exit:tablelock"] = tl_exit
+
+    def table_locked(interp):
+        return interp.ctx.lock_depth.get("tablelock", 0) > 0
+
+    def table_guarded(interp, what):
+        interp.ctx.check("%s/guarded-by-one-lock.function-table.%s" % (interp.contract.qualname, what), table_locked(interp),
+                         detail="the process-wide table _FUNCTION_HASHES is iterated by _write_func_code: iteration, insertion and clear must hold one lock, "
+                                "or a concurrent first call / Memory.clear makes the iterating thread raise RuntimeError (dictionary changed size)")
 
     # (format_signature / format_call: a string, never an exception - proved on the real bodies in contracts/fmt.py, where pprint of a user's
     # argument may raise what its __repr__ raises)
@@ -311,7 +345,23 @@ def build():
         return ops.truth(g["IN_TABLE"])
 
     p.models["contains:fhashes"] = fh_contains
-    p.models["getitem:fhashes"] = lambda i, r, idx: i.ctx.ghost["TABLEHASH"]
+
+    def fh_getitem(interp, recv, idx):
+        if not table_locked(interp) and interp.ctx.choose(2, "entry-removed-by-another-thread-since-the-membership-test") == 1:
+            interp.raise_("KeyError")
+        return interp.ctx.ghost["TABLEHASH"]
+
+    p.models["getitem:fhashes"] = fh_getitem
+
+    def fh_get(interp, recv, args, kwargs):
+        # one atomic call: the entry or the default
+        present = fh_contains(interp, recv, args[0])
+        default = args[1] if len(args) > 1 else kwargs.get("default")
+        if interp.ctx.branch(present, "in-table"):
+            return interp.ctx.ghost["TABLEHASH"]
+        return default
+
+    p.models["fhashes.get"] = fh_get
 
     def fh_set(interp, recv, name, args, kwargs, node):
         raise Unsupported("fhashes." + name)
@@ -321,6 +371,7 @@ def build():
     OTHERF, UNRELATEDF = Opaque("otherfunc", None), Opaque("unrelatedfunc", None)
 
     def fh_items(interp, recv, args, kwargs):
+        table_guarded(interp, "iteration")
         me = interp.ctx.ghost["SELF_MF"]
         loc, fid = interp.getattr(me.fields["store_backend"], "location", None, default=None), me.fields["func_id"]
         entries = [(UNRELATEDF, (Opaque("x", None), Opaque("y", None), Opaque("z", None), loc, Opaque("another_func_id", None)))]
@@ -401,6 +452,7 @@ def build():
 
         def cm(interp, recv, name, args, kwargs, node):
             if isinstance(recv, Opaque) and recv.tag == "fhashes" and name == "__setitem__":
+                table_guarded(interp, "insertion")
                 g = interp.ctx.ghost
                 g["TABLE_HIT"] = True  # the recorded tuple is _hash_func() of right now
                 g["TABLE_WRITTEN"] = True
@@ -501,18 +553,40 @@ def build():
 
     # ------------------------------------------------------------------ _call / _after_call / _cached_call / __call__ / call_and_shelve
     p.models["new:MemorizedResult"] = lambda i, a, k: Opaque("memorized_result", None, call_id=a[1], store=a[0])
+
+    def shelved_any(interp, call_id):
+        """What a shelving call may return at a call site: a reference into the store, or the value itself (narrowed by the ensures)."""
+        if interp.ctx.choose(2, "shelved:kind") == 0:
+            return Opaque("memorized_result", None, call_id=call_id)
+        return Opaque("not-memorized-result", None, value=Val.fresh(interp.ctx, "kept"))
+
+    def shelved_ok(interp, r):
+        g = interp.ctx.ghost
+        if isinstance(r, Opaque) and r.tag == "memorized_result":
+            cid = r.attrs["call_id"]
+            same = ops.identical(cid[1], g["KEY"])
+            return ops.mk_bool(z3.And(z3.BoolVal(same) if isinstance(same, bool) else same, z3.Select(g["HAS"].term, g["KEY"].term)))
+        if isinstance(r, Opaque) and r.tag == "not-memorized-result":
+            return ops.mk_bool(to_term(r.attrs["value"]) == Eval(g["CURSRC"].term, g["KEY"].term))
+        return False
+
+    p.spec_funcs["SHELVED_OK"] = shelved_ok
     call_c = Contract(
         MEM, "MemorizedFunc._call", props=["C02", "C06", "C05"], ghost=GHOST, globals=glob, setup=setup,
         inline={"_before_call", "_after_call", "_persist_input", "_get_memorized_result", "_load_item", "_safe_repr"},
         params=dict(self=mfunc(), call_id=callid, args=(), kwargs=PyDict({}), shelving=OneOf(False, True)),
         requires=PRE + ["entries_current()", "implies(CODESTATE == 2, DISKSRC is CURSRC)"],
         modifies=["ghost:HAS", "ghost:VAL", "ghost:EXECS"],
-        returns=lambda interp, env: (Val.fresh(interp.ctx, "out") if env.lookup("shelving") is False else Opaque("memorized_result", None, call_id=env.lookup("call_id")), PyDict({})),
+        returns=lambda interp, env: (Val.fresh(interp.ctx, "out") if env.lookup("shelving") is False else shelved_any(interp, env.lookup("call_id")), PyDict({})),
         ensures={
             "SI": "SI()", "TI": "TI()",
             "executes_once": "EXECS == old(EXECS) + 1",
             "returns_the_functions_value": "implies(not shelving, result[0] is ev(CURSRC, KEY))",
-            "shelved_reference_points_to_this_call": "implies(shelving, result[0].call_id[1] is KEY)",
+            # C02 (shelved references): the reference handed out for a call just computed is BACKED - it points to the entry of this call
+            # and that entry was stored, or (the store refused the result: full disk, quota, unpicklable value - dump_item warns and goes
+            # on) it carries the computed value itself.  Never a reference to an entry that was not written: its get() raises KeyError
+            # and the value just computed is lost
+            "shelved_reference_points_to_this_call": "implies(shelving, SHELVED_OK(result[0]))",
             "only_this_key_written": "only_key_changed(old(HAS), old(VAL), KEY)",
             "stored_value_is_correct": "implies(has(KEY), val(KEY) is ev(CURSRC, KEY))",
 
@@ -537,13 +611,12 @@ def build():
         params=dict(self=mfunc(), args=(), kwargs=PyDict({}), shelving=OneOf(False, True)),
         requires=PRE,
         modifies=["ghost:CODESTATE", "ghost:DISKSRC", "ghost:DISKLINE", "ghost:TABLE_HIT", "ghost:HAS", "ghost:VAL", "ghost:EXECS"],
-        returns=lambda interp, env: (Val.fresh(interp.ctx, "out") if env.lookup("shelving") is False else Opaque("memorized_result", None, call_id=(None, interp.ctx.ghost["KEY"])), PyDict({})),
+        returns=lambda interp, env: (Val.fresh(interp.ctx, "out") if env.lookup("shelving") is False else shelved_any(interp, (None, interp.ctx.ghost["KEY"])), PyDict({})),
         ensures={
             "SI": "SI()", "TI": "TI()",
             # C02 / C12: always the value of the CURRENT code on THESE arguments, whatever was in the store
             "returns_the_functions_value": "implies(not shelving, result[0] is ev(CURSRC, KEY))",
-            "shelved_reference_points_to_this_call": "implies(shelving, result[0].call_id[1] is KEY and "
-                                                     "implies(has(KEY), val(KEY) is ev(CURSRC, KEY)))",
+            "shelved_reference_points_to_this_call": "implies(shelving, SHELVED_OK(result[0]) and implies(has(KEY), val(KEY) is ev(CURSRC, KEY)))",
             # C06: a valid entry is served without running the function (unless the load itself fails: then exactly one recomputation)
             "hit_runs_nothing_or_recomputes_once": "EXECS == old(EXECS) or EXECS == old(EXECS) + 1",
             "miss_runs_once": "implies(not sel(old(HAS), KEY), EXECS == old(EXECS) + 1)",
@@ -558,7 +631,7 @@ def build():
             MEM, q, props=["C02", "C06"], ghost=GHOST, globals=glob, setup=setup,
             params=dict(self=mfunc(), args=(), kwargs=PyDict({})),
             requires=PRE,
-            ensures={"value": ("result is ev(CURSRC, KEY)" if q.endswith("__call__") else "result.call_id[1] is KEY")},
+            ensures={"value": ("result is ev(CURSRC, KEY)" if q.endswith("__call__") else "SHELVED_OK(result)")},
         ))
 
     # forced execution: the value written is only meaningful under the code recorded in the store, so call() must leave
@@ -821,6 +894,22 @@ def build():
     p.spec_funcs["kw"] = lambda interp, ev_name, key: [e for e in interp.ctx.events if e[0] == ev_name][0][2].get(key, Opaque("missing", None))
     memory_obj = lambda **over: ObjOf("Memory", **dict(dict(store_backend=OneOf(None, OpaqueOf("storebackend")), backend="local", compress=OneOf(False, True, 3), mmap_mode=OneOf(None, "r", "c"),
                                                             _verbose=INT, timestamp=REAL), **over))
+    # Memory.clear: wipes the store, then the process-wide table of validated functions (else a function validated before the clear would
+    # never write its code file again) - the clear of the table inside the lock shared with the iteration of _write_func_code (C11)
+    def fh_clear(interp, recv, args, kwargs):
+        table_guarded(interp, "clear")
+        interp.ctx.events.append(("table-cleared",))
+        return None
+
+    p.models["fhashes.clear"] = fh_clear
+    p.models["storebackend.clear"] = lambda i, r, a, k: (i.ctx.events.append(("store-cleared",)), None)[1]
+    p.models["Memory.warn"] = lambda i, r, a, k: None
+    p.add(Contract(
+        MEM, "Memory.clear", props=["C11", "C12"], globals=glob,
+        params=dict(self=memory_obj(), warn=OneOf(True, False)),
+        ensures={"store_then_table": "implies(self.store_backend is not None, n_events('store-cleared') == 1 and n_events('table-cleared') == 1)",
+                 "nothing_without_a_store": "implies(self.store_backend is None, n_events('store-cleared') == 0)"},
+    ))
     p.add(Contract(
         MEM, "Memory.cache", variant="function-given", props=["C02", "C06", "C12"],
         params=dict(self=memory_obj(), func=OpaqueOf("userfunc", isinstance=()), ignore=OneOf(None, OpaqueOf("ignorelist")), verbose=OneOf(None, INT), mmap_mode=OneOf(False, None, "r"),
